@@ -1,13 +1,124 @@
 package redact
 
-import "testing"
+import (
+	"fmt"
+	"os"
+	"testing"
+
+	"github.com/cockroachdb/redact/builder"
+)
+
+// Panics that unwind THROUGH a nested printer (SafePrinter.Print/Printf called from a SafeFormat method):
+// a user method panics with a value whose own printing panics again, so the inner catchPanic re-panics and
+// the outer one reports. What was written before, during and after must still be well-formed (finding F8).
+
+type c01EvilErr struct{}
+
+func (c01EvilErr) Error() string { panic("second") }
+
+type c01EvilStr struct{}
+
+func (c01EvilStr) String() string { panic(c01EvilErr{}) }
+
+type c01NestPrint struct{ pre string }
+
+func (f c01NestPrint) SafeFormat(p SafePrinter, _ rune) { p.Print(f.pre, c01EvilStr{}) }
+
+type c01NestPrintf struct{ pre string }
+
+func (f c01NestPrintf) SafeFormat(p SafePrinter, _ rune) { p.Printf("%s%v", f.pre, c01EvilStr{}) }
+
+type c01NestDeep struct{ pre string }
+
+func (f c01NestDeep) SafeFormat(p SafePrinter, _ rune) {
+	p.Print(f.pre, c01NestPrintf{f.pre})
+}
+
+func c01UnwindCases() []vCase {
+	var cs []vCase
+	add := func(call string, f func() RedactableString) {
+		var out RedactableString
+		func() {
+			defer func() {
+				if r := recover(); r != nil {
+					out = RedactableString(fmt.Sprintf("PANIC ESCAPED: %v", r))
+				}
+			}()
+			out = f()
+		}()
+		cs = append(cs, vCase{call, string(out)})
+	}
+	for _, pre := range []string{"zzz", "", "a\n", vS, "\xe2\x80"} {
+		pre := pre
+		q := fmt.Sprintf("%q", pre)
+		for _, lead := range []string{"a", "", "\n", "\xe2"} {
+			lead := lead
+			ql := fmt.Sprintf("%q", lead)
+			add("Sprintf(\"%v%v|%v\", "+ql+", SafeFormatter{p.Print("+q+", StringerPanickingWith(errorWhoseErrorPanics))}, \"tail\")",
+				func() RedactableString { return Sprintf("%v%v|%v", lead, c01NestPrint{pre}, "tail") })
+			add("Sprintf(\"%v%v|%v\", "+ql+", SafeFormatter{p.Printf(\"%s%v\", "+q+", StringerPanickingWith(errorWhoseErrorPanics))}, \"tail\")",
+				func() RedactableString { return Sprintf("%v%v|%v", lead, c01NestPrintf{pre}, "tail") })
+			add("Sprint("+ql+", SafeFormatter{p.Print("+q+", SafeFormatter{p.Printf(...panicking...)})}, \"tail\")",
+				func() RedactableString { return Sprint(lead, c01NestDeep{pre}, "tail") })
+			add("Sprintf(\"%v%v\", "+ql+", Safe(SafeFormatter{p.Print("+q+", ...panicking...)}))",
+				func() RedactableString { return Sprintf("%v%v", lead, Safe(c01NestPrint{pre})) })
+			add("Sprintf(\"%v%v\", "+ql+", Unsafe(SafeFormatter{p.Printf(...panicking...)}))",
+				func() RedactableString { return Sprintf("%v%v", lead, Unsafe(c01NestPrintf{pre})) })
+			add("StringBuilder{UnsafeString("+ql+"); Print(SafeFormatter{p.Print("+q+", ...panicking...)}); SafeString(\"tail\")}",
+				func() RedactableString {
+					var b builder.StringBuilder
+					b.UnsafeString(lead)
+					b.Print(c01NestPrint{pre})
+					b.SafeString("tail")
+					return b.RedactableString()
+				})
+		}
+	}
+	return cs
+}
 
 func TestVerifReplayC01(t *testing.T) {
-	vRun(t, "C01", func(out string) (bool, string) {
+	check := func(out string) (bool, string) {
 		if !vWellFormed(out) {
 			return false, "output is not well-formed: markers do not strictly alternate"
 		}
 		return true, ""
-	})
+	}
+	n := 0
+	for _, c := range c01UnwindCases() {
+		if ok, why := check(c.out); !ok {
+			vFail(t, "C01", c.call, c.out, why)
+			n++
+			if n >= 4 {
+				break
+			}
+		}
+	}
+	vRun(t, "C01", check)
 }
 
+// TestVerifBoundedC01: C01 is decided deductively for all inputs; this bounded run only adds an end-to-end
+// cross-check of the public API against the executable definition of well-formedness.
+func TestVerifBoundedC01(t *testing.T) {
+	check := func(out string) (bool, string) {
+		if !vWellFormed(out) {
+			return false, "output is not well-formed: markers do not strictly alternate"
+		}
+		return true, ""
+	}
+	fails := 0
+	uc := c01UnwindCases()
+	for _, c := range uc {
+		if ok, why := check(c.out); !ok {
+			vFail(t, "C01", c.call, c.out, why)
+			fails++
+		}
+	}
+	rn, xn := 3, 2
+	if os.Getenv("VERIF_TIER") == "thorough" {
+		rn, xn = 4, 2
+	}
+	cases, nt := vRunN(t, "C01", check, rn, xn)
+	vBounded("C01", "every output of the printing/building API is well-formed (end-to-end cross-check of the proved invariant)", cases+len(uc), nt,
+		"the output contains at least one envelope", fmt.Sprintf("redactables of at most %d and tails of at most %d pieces over {a, LF, start, end, E2, E2 80, 80, B9, BA, ?, space}, 18 producers each; %d panic-unwinding scenarios", rn, xn, len(uc)), fails == 0 && !t.Failed())
+}
